@@ -69,7 +69,10 @@ class MarginalRayHeightSolve(BaseSolve):
     def apply(self):
         """Applies the MarginalRayHeightSolve to the optic."""
         ya, ua = self.optic.paraxial.marginal_ray()
-        offset = (self.height - ya[self.surface_idx]) / ua[self.surface_idx]
+        # the ray reaches the surface with the slope it has after the previous
+        # surface; moving the surface by dz changes the height there by dz*u
+        offset = (self.height - ya[self.surface_idx]) \
+            / ua[self.surface_idx - 1]
 
         # shift current surface and all subsequent surfaces
         for surface in self.optic.surface_group.surfaces[self.surface_idx:]:
